@@ -21,7 +21,6 @@ use jj_lib::repo_path::RepoPathBuf;
 use jj_lib::store::Store;
 use jj_lib::working_copy::CheckoutError;
 use jj_lib::working_copy::CheckoutStats;
-use jj_lib::working_copy::WorkingCopy as _;
 use jjv::Rng;
 use pollster::FutureExt as _;
 use testutils::TestTreeBuilder;
@@ -568,6 +567,19 @@ impl Ws {
         let tw = &mut self.tw;
         jjv::catch(|| tw.snapshot().ok()).flatten()
     }
+
+    /// Snapshot that does not start tracking new files (untracked entries stay untracked).
+    pub fn snapshot_tracked_only(&mut self) -> Option<MergedTree> {
+        let tw = &mut self.tw;
+        jjv::catch(|| {
+            let options = jj_lib::working_copy::SnapshotOptions {
+                start_tracking_matcher: &jj_lib::matchers::NothingMatcher,
+                ..testutils::empty_snapshot_options()
+            };
+            tw.snapshot_with_options(&options).ok().map(|(t, _)| t)
+        })
+        .flatten()
+    }
 }
 
 #[derive(Clone, Debug, PartialEq, Eq)]
@@ -667,4 +679,30 @@ pub fn coq_states(s: &[(P, bool)]) -> String {
 /// PrefixMatcher::matches on plain data (harness-side decisions only).
 pub fn matches_sparse(sparse: &[P], p: &P) -> bool {
     sparse.iter().any(|r| is_prefix(r, p))
+}
+
+/// Runs the cases on a few worker threads (each case is a function of its index and its
+/// own generator state only) and returns the results in index order.
+pub fn par_cases<T: Send>(ctx: &jjv::Ctx, f: impl Fn(usize, jjv::Rng) -> T + Sync) -> Vec<(usize, T)> {
+    let indices = ctx.indices();
+    let workers = 8usize.min(indices.len().max(1));
+    let results = std::sync::Mutex::new(Vec::new());
+    std::thread::scope(|scope| {
+        for k in 0..workers {
+            let indices = &indices;
+            let results = &results;
+            let f = &f;
+            scope.spawn(move || {
+                for (n, &i) in indices.iter().enumerate() {
+                    if n % workers == k {
+                        let out = f(i, ctx.rng(i));
+                        results.lock().unwrap().push((i, out));
+                    }
+                }
+            });
+        }
+    });
+    let mut v = results.into_inner().unwrap();
+    v.sort_by_key(|(i, _)| *i);
+    v
 }
